@@ -126,6 +126,11 @@ impl<VM: VMBinding> SFT for ImmixSpace<VM> {
         true
     }
     fn initialize_object_metadata(&self, _object: ObjectReference, _bytes: usize) {
+        // Objects allocated into a mature space (e.g. the non-moving space of a generational plan)
+        // are unlogged from the start, so that the barrier remembers stores into them.
+        if self.common.unlog_allocated_object {
+            VM::VMObjectModel::GLOBAL_LOG_BIT_SPEC.mark_as_unlogged::<VM>(_object, Ordering::SeqCst);
+        }
         #[cfg(feature = "vo_bit")]
         crate::util::metadata::vo_bit::set_vo_bit(_object);
     }
